@@ -37,7 +37,12 @@ Base == [arr |-> [arr |-> <<<<I(1), I(2), I(3)>>, <<I(4), I(5), I(6)>>>>, dims |
          \* fixed-size and dynamic containers
          fa |-> [arr |-> <<<<I(1), I(2), I(3)>>, <<I(4), I(5), I(6)>>>>, dims |-> <<"x", "y">>],
          fv |-> Vec(<<I(7), I(8), I(9)>>),
-         da |-> [arr |-> <<<<I(1), I(2)>>, <<I(3), I(4)>>>>, dims |-> <<"d0", "d1">>]]
+         da |-> [arr |-> <<<<I(1), I(2)>>, <<I(3), I(4)>>>>, dims |-> <<"d0", "d1">>],
+         \* a second array of the same element type whose dimensions have the same names in the other order (4 x 5), and a
+         \* second name field: one expression can then look up dimensions of two different arrays by run-time names
+         tr |-> [arr |-> <<<<I(1), I(2), I(3), I(4), I(5)>>, <<I(6), I(7), I(8), I(9), I(10)>>,
+                            <<I(11), I(12), I(13), I(14), I(15)>>, <<I(16), I(17), I(18), I(19), I(20)>>>>, dims |-> <<"y", "x">>],
+         nx |-> S("x")]
 
 \* ---- expression trees
 Fld(n) == [k |-> "fld", n |-> n]
@@ -66,7 +71,7 @@ Arith(op, a, b) ==
     [] op = "*" -> Norm((x * y) \div 2, fl)          \* exact on the catalogue: one factor is always integral
 
 DimPos(a, name) == CHOOSE j \in 1..Len(a.dims) : a.dims[j] = name
-Shape(a) == <<Len(a.arr), Len(a.arr[1])>>
+Shape(a) == <<Len(a.arr), Len(a.arr[1])>>          \* (every array of the catalogue has two dimensions)
 TagOf(v) == IF "null" \in DOMAIN v THEN "null" ELSE IF "tag" \in DOMAIN v THEN v.tag ELSE "int"       \* a non-null optional int
 Payload(v) == IF "tag" \in DOMAIN v THEN v.v ELSE v
 
@@ -147,7 +152,16 @@ Switches ==
     Sw(Fld("i"), <<Case("int", "", Lit(5))>>),
     Sw(Fld("k"), <<Case("_", "", Bin("+", Fld("i"), Lit(1)))>>) }
 
-Exprs == Plain \cup Fixed \cup Switches
+\* several arrays in one expression, each looked up by a dimension name that is only known at run time
+Tr == Fld("tr")
+TwoArrays ==
+  { Bin("+", SizeDim(a, n), SizeDim(b, m)) : a \in {Arr, Tr}, b \in {Arr, Tr}, n \in {Fld("ns"), Fld("nx")}, m \in {Fld("ns"), Fld("nx")} }
+  \cup { Bin("+", Bin("*", DimIndex(a, n), Lit(10)), DimIndex(b, n)) : a \in {Arr, Tr}, b \in {Arr, Tr}, n \in {Fld("ns"), Fld("nx")} }
+  \cup { Bin("*", SizeDim(Tr, Fld("ns")), SizeDim(Fld("fa"), Fld("ns"))), Bin("+", SizeDim(Fld("fa"), Fld("nx")), SizeDim(Tr, Fld("nx"))),
+         Bin("+", SizeDim(Tr, Str("x")), SizeDim(Arr, Fld("ns"))), Bin("+", SizeDim(Arr, Fld("ns")), Bin("+", SizeDim(Tr, Fld("ns")), SizeDim(Arr, Fld("nx")))),
+         Idx(Tr, <<Arg("", DimIndex(Arr, Fld("ns"))), Arg("", DimIndex(Tr, Fld("nx")))>>), SizeDim(Tr, Fld("nx")), DimIndex(Tr, Fld("ns")), Size(Tr) }
+
+Exprs == Plain \cup Fixed \cup Switches \cup TwoArrays
 EnvOf(val) == [n \in DOMAIN Base \cup DOMAIN val |-> IF n \in DOMAIN val THEN val[n] ELSE Base[n]]
 ValSeq == SetToSeq(Valuations)
 Cases == { [e |-> e, values |-> [j \in 1..Len(ValSeq) |-> Eval(e, EnvOf(ValSeq[j]))]] : e \in Exprs }
